@@ -129,7 +129,14 @@ class PathEnum:
                 return self._apply(("upvar", proj[j]["i"]), self._proj_names(proj[j + 1:]))
         base = env.get(l)
         if base is None:
-            base = ("param", l) if 1 <= l <= self.body.arg_count else ("undef", l)
+            if 1 <= l <= self.body.arg_count:
+                base = ("param", l)
+            elif self.start_bb != 0:
+                # enumeration started in the middle of the body: values defined before the start
+                # block get their flow-insensitive provenance
+                base = self.prog.bp(self.body).local_term(l, self.start_bb, 0)
+            else:
+                base = ("undef", l)
         names = self._proj_names(proj)
         # partial overrides recorded as ('over', base, ((names, val),...))
         if base[0] == "over" and names:
@@ -307,6 +314,12 @@ class PathEnum:
                 ev.ck = site.ck
                 ev.args = args
                 res = self.call_result(site, args, v)
+                if site.ck == "std::boxed::box_assume_init_into_vec_unsafe" and args:
+                    # vec![a, b]: Box::new_uninit -> array written through the box -> into_vec
+                    for pe_ in reversed(path.events):
+                        if pe_.kind == "store" and pe_.value[0] == "agg" and pe_.value[1] == "array" and any(st == args[0] for st in subterms(pe_.target)):
+                            res = ("agg", "vec", pe_.value[2])
+                            break
                 ev.result = res
                 if site.fn is None:
                     ev.target = self.operand(env, t["func"])
@@ -314,6 +327,10 @@ class PathEnum:
                 # a fresh result invalidates decisions about the previous result of this site
                 if v > 1:
                     decisions = [(dk, dv) for (dk, dv) in decisions if not any(st[0] == "call" and st[1][:2] == (body.path, bb) and len(st[1]) == 2 for st in subterms(dk))]
+                if res[0] == "take":
+                    tk = set(discr_src.get("__taken__", ()))
+                    tk.add(res[1])
+                    discr_src["__taken__"] = frozenset(tk)
                 d = t["dest"]
                 if not d["p"]:
                     env[d["l"]] = res
@@ -353,6 +370,12 @@ class PathEnum:
                         stack.append((tgt, env, consts, decisions, visits, path, discr_src))
                     continue
                 key = norm_key(self.operand(env, d))
+                taken = discr_src.get("__taken__", frozenset())
+                if key[0] == "discr" and key[1][0] == "take":
+                    # Option::take returns the old content: same discriminant as the place had
+                    key = ("discr", key[1][1])
+                elif key[0] == "discr" and key[1] in taken:
+                    key = ("discr", ("agg", "adt:std::option::Option::None", ()))
                 src = discr_src.get(l) if l is not None else None
                 vt = self.variant_table(src) if src is not None else {}
                 outcomes = []
